@@ -174,6 +174,14 @@ mutual
       simp [numbsParseEntries, h1, h2]
 end
 
+/-- **C07_numb_in_list_full** — the statement in the terms of group gB's `C10_init_text_roundtrip` /
+    `C10_autoinit_text_roundtrip`: a list or table (any nesting) whose numbers were made by `cif_value_init_numb` /
+    `cif_value_autoinit_numb` / `cif_value_parse_numb` survives serialisation → deserialisation although the deserialiser
+    rebuilds every number by re-parsing its text -/
+theorem C07_numb_in_list_full (v : V) (h : C07_constructible v) :
+    C07_numbsConsistent parseFields v ∧ deserialize parseFields (ser v) = some (v, []) :=
+  ⟨C07_numb_in_list v h, deserialize_ser parseFields v (C07_numb_in_list v h)⟩
+
 /-- … hence **every constructible value survives serialisation**, whatever its depth and whichever number functions
     built its numbers -/
 theorem C07_constructible_roundtrip (v : V) (h : C07_constructible v) :
